@@ -435,4 +435,71 @@ theorem isolated_of_ws (ifs : List Char)
       exact isolated_of_ws ifs hws s .afterC (by simp)
 
 
+/-! ## Lines without a backslash: `-r` and a backslash in IFS are irrelevant -/
+
+theorem ne_backslash_of (c : Char) (l : List Char) (h : (c :: l).contains '\\' = false) :
+    (c == '\\') = false ∧ l.contains '\\' = false := by
+  simp only [List.contains_cons, Bool.or_eq_false_iff] at h
+  refine ⟨?_, h.2⟩
+  cases hcc : (c == '\\') with
+  | false => rfl
+  | true =>
+    have : c = '\\' := by simpa using hcc
+    subst this; simp at h
+
+theorem unescape_true (line : List Char) : unescape true line = line.map fun c => (c, false) := by
+  cases line <;> rfl
+
+theorem unescape_no_backslash : ∀ (line : List Char), line.contains '\\' = false →
+    unescape false line = unescape true line
+  | [], _ => by simp [unescape]
+  | [c], h => by
+    have hc := (ne_backslash_of c [] h).1
+    simp [unescape, hc]
+  | c :: d :: rest, h => by
+    obtain ⟨hc, h2⟩ := ne_backslash_of c (d :: rest) h
+    have ih := unescape_no_backslash (d :: rest) h2
+    rw [unescape_true] at ih ⊢
+    rw [unescape]
+    simp only [hc, Bool.false_eq_true, if_false, ih, List.map_cons]
+
+theorem step_no_backslash (ifs : List Char) (st : St) (r : Char) (hr : (r == '\\') = false)
+    (he : st.esc = false) :
+    step ifs false st r = step ifs true st r ∧
+      ∀ st', step ifs true st r = .ok st' → st'.esc = false := by
+  constructor
+  · simp only [step, toggle, push, he, hr]
+    simp
+  · intro st' h
+    simp only [step, toggle, push, hr] at h
+    split at h
+    · cases h
+    · cases h; rfl
+
+theorem loop_no_backslash (ifs : List Char) : ∀ (line : List Char) (st : St),
+    line.contains '\\' = false → st.esc = false →
+    loop ifs false st line = loop ifs true st line
+  | [], st, _, _ => rfl
+  | r :: rs, st, h, he => by
+    obtain ⟨hr, h⟩ := ne_backslash_of r rs h
+    obtain ⟨h1, h2⟩ := step_no_backslash ifs st r hr he
+    rw [loop, loop, h1]
+    cases hs : step ifs true st r with
+    | error m => rfl
+    | ok st' =>
+      simp only
+      exact loop_no_backslash ifs rs st' h (h2 st' hs)
+
+theorem readFields_no_backslash (ifs line : List Char) (n : Int) (h : line.contains '\\' = false) :
+    readFields ifs line n false = readFields ifs line n true := by
+  unfold readFields
+  rw [loop_no_backslash ifs line St.init h rfl]
+
+theorem specRead_no_backslash (ifs line : List Char) (names : Option Nat)
+    (h : line.contains '\\' = false) :
+    specRead ifs line names false = specRead ifs line names true := by
+  unfold specRead
+  rw [unescape_no_backslash line h]
+
+
 end ShVerif.C23
